@@ -279,6 +279,9 @@ def run_case(scratch: str, case: Dict[str, Any], chooser_factory: Callable[[S.Sc
             shutil.copytree(template, root)
         elif backend_kind != "local" and setup is None:
             store.objects = {k: dict(v) for k, v in _S3_TEMPLATES[template].items()}
+            # ETags must stay unique per object version: continue the counter after the template's highest one (a fresh
+            # counter re-issued the template pointer's ETag to a later put, and a stale If-Match then passed)
+            store.etag_counter = max([int(v["etag"].strip('"e')) for v in store.objects.values()] + [store.etag_counter]) + 1000
         # frozen clock: every commit of the run happens in the same millisecond as the last setup commit
         sc.clock_ms = 1_700_000_000_000 + 10 * nsnap + (0 if clock == "frozen" else 10)
         sc.log.clear()
